@@ -445,3 +445,7 @@ package sem
 //@   ensures[bad-unchanged-by-the-loop] r == 0
 //@   ensures[inc-counts] n >= 0 ==> r == n
 //@   modifies heap
+
+// ---- sixth batch: re-acquisition through helpers
+//@ func readLockedC(k) r
+//@   props E00
